@@ -162,8 +162,21 @@ JEnd(r) ==
     /\ UNCHANGED jvars
 
 \* diagnosis only (used in REJECT lines): which clause the unacceptable record breaks
+\* Summary of a multi-threaded run (h_poolmt dtor-race): one thread dropped r.bombs handles of objects whose destructor
+\* panics while 3 threads called len() and one inserted/dropped harmless objects on the same pool.  The destructor panic of
+\* one thread is "the earlier event" for every operation of the others: none of them may panic (or observe more than the two
+\* objects that can be alive), no thread may die, and afterwards the pool is empty and usable.
+JRace(r) ==
+    /\ r.ev = "dtorrace"
+    /\ r.bomb_panics <= r.bombs
+    /\ r.obs_panics = 0 /\ r.wr_panics = 0 /\ r.wrong_len = 0
+    /\ r.joined = 4 /\ r.final_len = 0 /\ r.final_cycle = 1
+    /\ UNCHANGED jvars
+
 JWhy(r) ==
     CASE r.ev = "end" -> r.a
+      [] r.ev = "dtorrace" -> IF r.obs_panics + r.wr_panics > 0 THEN "other-thread-op-panicked"
+                              ELSE IF r.final_len # 0 \/ r.final_cycle # 1 THEN "pool-broken-afterwards" ELSE "wrong-len-or-thread-died"
       [] r.ev = "panic" -> "pool-panic"
       [] r.ev = "ret" /\ ~jcall.active -> "protocol"
       [] r.ev = "ret" /\ ~((r.a = "panicked") <=> jpan) -> "outcome"
@@ -177,5 +190,5 @@ JWhy(r) ==
 
 JStep(r) ==
     \/ JSetup(r) \/ JCall(r) \/ JCb(r) \/ JCbEnd(r) \/ JUPanic(r) \/ JPanic(r) \/ JAct(r) \/ JActRet(r)
-    \/ JIns(r) \/ JIterated(r) \/ JRet(r) \/ JEnd(r)
+    \/ JIns(r) \/ JIterated(r) \/ JRet(r) \/ JEnd(r) \/ JRace(r)
 =============================================================================
